@@ -11,8 +11,10 @@
   RDFa), `Bp<i.j.k>` (Microdata item position).
 
   Ops (answers start with `ok:`):
-    html.rdfa    <base> <tree…>                       → triples of Spec.Rdfa.denote (initial context: Gen.HtmlFacts)
-    html.md      <base> <tree…>                       → triples of Spec.Microdata.denote | `outside`
+    html.rdfa    <location> <tree…>                   → triples of Spec.Rdfa.denote (initial context: Gen.HtmlFacts); the base is
+                                                        Html.docBase: the location, or the first <base href> resolved against it
+    html.md      <location> <tree…>                   → triples of Spec.Microdata.denote | `outside`   (same base rule)
+    html.docbase <location> <tree…>                   → x<hex> of Html.docBase
     html.scripts <tree…>                              → HEX;HEX… texts of the JSON-LD script elements
     html.rdfaw   <base> <graph> <skel> <pat>…         → <#blocks>.<#canonical>:<tree tokens>|<triples of denote>
     html.mdw     <base> <graph> <mdpat>               → <validated 0/1><known-good 0/1>:<tree tokens>|<triples of denote>
@@ -264,15 +266,21 @@ def b01 (b : Bool) : String := if b then "1" else "0"
 def handle (op : String) (args : List String) : Option String :=
   match op, args with
   | "rdfa", b :: toks => do
-    let base ← runesTok b
+    let location ← runesTok b
     let t ← parseTree toks
+    let base := RdfModel.Html.docBase location t
     pure ("ok:" ++ joinTriples ((rdfaDenote base t).map showRTr))
   | "md", b :: toks => do
-    let base ← runesTok b
+    let location ← runesTok b
     let t ← parseTree toks
+    let base := RdfModel.Html.docBase location t
     if Spec.Microdata.inFragment t then
       pure ("ok:" ++ joinTriples ((Spec.Microdata.denote base t).map showMTr))
     else pure "outside"
+  | "docbase", b :: toks => do
+    let location ← runesTok b
+    let t ← parseTree toks
+    pure ("ok:" ++ tokOfRunes (RdfModel.Html.docBase location t))
   | "scripts", toks => do
     let t ← parseTree toks
     pure ("ok:" ++ String.intercalate ";" ((RdfModel.Html.scriptsNode t).map hexStr))
